@@ -7,8 +7,8 @@
      - scenario "flusher" (real MetricFlusher.Run, aligned): for every flush the clock reading
        at which the aggregators were invoked and the interval handed to Aggregator.Flush
        (None for the first flush: it is measured from the real wall clock).
-   The harness lets all goroutines park after every operation, so a script denotes exactly one
-   label sequence of Model.Ticker: after each operation the ticker goroutine runs until it
+   The harness lets all goroutines park after every operation (except before an initial [OE], see
+   below), so a script denotes exactly one label sequence of Model.Ticker: after each operation the ticker goroutine runs until it
    parks (a run of [Tick] labels), and in the flusher scenario the flusher then consumes if it is
    not held in a flush (one [Consume] label).  [check_case] runs that label sequence through [step] and compares. *)
 From GS Require Export Base.Bytes Base.CorrLib Model.Ticker.
@@ -16,6 +16,11 @@ Local Open Scope Z_scope.
 
 Inductive op :=
 | OA (d : Z)   (* Mock.Add(d), then let the goroutines park *)
+| OE (d : Z)   (* as the FIRST op: Mock.Add(d) immediately after construction, without first letting
+                  the goroutines run (the harness constructs and advances on a single P without
+                  yielding).  Which of the two orders really happened is read off the recorded
+                  clck.NewTimer call: clock reading = start means the goroutine ran first.  Anywhere
+                  else in a script (only the shrinker produces that): same as OA *)
 | OC           (* ticker scenario: non-blocking read of C *)
 | OH           (* flusher scenario: the next flush blocks inside AggregateProcesser.Process *)
 | OR.          (* flusher scenario: disarm; release a blocked flush, then let the goroutines park *)
@@ -74,18 +79,31 @@ Section Drive.
         | Some s' => Drv s' (d_gate d) (d_busy d) (Some (last s') :: d_reads d) (d_ok d)
         | None => Drv (d_st d) (d_gate d) (d_busy d) (None :: d_reads d) (d_ok d)
         end
+    | OE dd =>
+        match step i o (d_st d) (Advance dd) with
+        | Some s' => settle (Drv s' (d_gate d) (d_busy d) (d_reads d) (d_ok d))
+        | None => Drv (d_st d) (d_gate d) (d_busy d) (d_reads d) false
+        end
     | OH => if fl then Drv (d_st d) true (d_busy d) (d_reads d) (d_ok d) else d
     | OR => if fl then settle (Drv (d_st d) false false (d_reads d) (d_ok d)) else d
     end.
 
-  Definition run_ops (start : Z) (ops : list op) : drv :=
-    let d0 := settle (Drv (init start 0) false false [] true) in
-    let d1 := fold_left apply_op ops d0 in
+  Definition run_ops (start : Z) (arm : option (Z * Z)) (ops : list op) : drv :=
+    let dinit := Drv (init start 0) false false [] true in
+    let d1 :=
+      match ops with
+      | OE dd :: rest =>
+          let goroutine_first := match arm with Some (a, _) => a =? start | None => false end in
+          if goroutine_first
+          then fold_left apply_op ops (settle dinit)      (* park, then advance, park *)
+          else fold_left apply_op ops dinit               (* advance, then park: the goroutine starts at start + dd *)
+      | _ => fold_left apply_op ops (settle dinit)
+      end in
     if fl then apply_op d1 OR else d1.
 End Drive.
 
 Definition run_case (c : tcase) : drv :=
-  run_ops (tc_flusher c) (tc_interval c) (tc_offset c) (tc_start c) (tc_ops c).
+  run_ops (tc_flusher c) (tc_interval c) (tc_offset c) (tc_start c) (tc_arm c) (tc_ops c).
 
 Definition pair_eqb (a b : Z * Z) : bool := (fst a =? fst b) && (snd a =? snd b).
 
